@@ -100,6 +100,7 @@ func (c *Command) UnmarshalBinary(uplink bool, data []byte) error {
 	}
 
 	c.CID = CID(data[0])
+	c.Payload = nil // a command without payload must not keep a previous one
 
 	p, err := GetCommandPayload(uplink, c.CID)
 	if err != nil {
@@ -145,6 +146,9 @@ func (c Commands) MarshalBinary() ([]byte, error) {
 // UnmarshalBinary decodes a slice of bytes into a slice of commands.
 func (c *Commands) UnmarshalBinary(uplink bool, data []byte) error {
 	var i int
+
+	// do not append to the commands of a previous decode
+	*c = nil
 
 	for i < len(data) {
 		var cmd Command
@@ -448,6 +452,8 @@ func (p *DevUpgradeImageAnsPayload) UnmarshalBinary(data []byte) error {
 		}
 		nextFirmareVersion := binary.LittleEndian.Uint32(data[1:5])
 		p.nextFirmwareVersion = &nextFirmareVersion
+	} else {
+		p.nextFirmwareVersion = nil
 	}
 
 	return nil
